@@ -25,6 +25,7 @@ Rep(x, n) == [i \in 1..n |-> x]
 \* fields (protobuf); long-form / indefinite / oversized lengths, high-tag-number identifiers, over-long integers (DER)
 Evil == <<
   Rep(255, 10),                                   \* 10-octet varint, all continuation bits
+  Rep(255, 8), Rep(255, 4), <<127>> \o Rep(255, 7), \* fixed-width fields / trailers at their largest values
   Rep(255, 9) \o <<1>>,                           \* largest terminated varint (2^64 - 1 and above)
   Rep(255, 11),                                   \* 11 octets
   <<18, 127, 65>>,                                \* field 2, LEN 127, one octet of content
